@@ -180,6 +180,11 @@ fn main() {
     rep.merge(par_range(&cfg, np * np, |i, r| check_batch(&[pool[(i % np) as usize], pool[(i / np) as usize]], r)));
     let trip = if quick { np * np * 8 } else { np * np * np };
     rep.merge(par_range(&cfg, trip, |i, r| check_batch(&[pool[(i % np) as usize], pool[(i / np % np) as usize], pool[((i / np / np) * if quick { 7 } else { 1 } % np) as usize]], r)));
+    // scale sentinel: hundreds of triangles in one call (every pool member several times, interleaved orders)
+    for stride in [1usize, 7, 31] {
+        let big: Vec<[P4; 3]> = (0..600).map(|k| pool[(k * stride + k / 96) % pool.len()]).collect();
+        check_batch(&big, &mut rep);
+    }
     rep.sample(0, || obj! {"triangle" => vec![vec![-2.0f32, 1.0, -0.5, 2.0], vec![1.0, 1.0, 1.0, -1.0], vec![-0.5, -2.0, 1.0, 1.0]], "attributes" => "barycentric unit vectors + scalar (3,-7,11)"});
     rep.finish(&cfg, "exploration",
         "every ordered triple of a clip-space point lattice (x,y,z in C, w in W incl. negative w; thorough adds on-plane values) is clipped singly; per output vertex: position == affine combination given by the carried barycentric attribute (so the attribute field is intact), scalar attribute likewise, inside triangle and frustum; outputs keep the input's orientation in the barycentric chart, their areas sum to the area of the exact visible polygon (vertex enumeration over the 9 bounding lines, f64 on dyadic data) and a 24x24 chart sample grid finds every interior point in exactly one output; trivially inside => unchanged bit-for-bit, wholly outside one plane => nothing; batches: every pair and (quick: a subset of, thorough: every) triple from a 96-triangle pool (32 of them needing clipping yet vanishing entirely) clipped in one call == concatenation of single results. non-trivial = genuinely clipped triangle with positive visible area.",
